@@ -435,6 +435,39 @@ def _selector(ctx, pe, fn, rid):
     dparam = fn.args.args[0].arg
     la = local_assigns(fn)
     found = None
+    # the selection may live in a module-level helper that receives the date
+    if not _has_date_filter(fn, dparam):
+        for c in walk_own(fn):
+            if isinstance(c, ast.Call) and isinstance(c.func, ast.Name) and c.func.id in pe.functions and c.func.id != fn.name:
+                h = pe.functions[c.func.id]
+                hp = [a.arg for a in h.args.posonlyargs + h.args.args + h.args.kwonlyargs]
+                bound = dict(zip(hp, c.args))
+                bound.update({kw.arg: kw.value for kw in c.keywords if kw.arg})
+                for hp_, arg_ in bound.items():
+                    if isinstance(arg_, ast.Name) and arg_.id == dparam and (_has_date_filter(h, hp_) or _has_bisect(h, hp_)):
+                        return _selector_in(ctx, pe, h, rid, hp_)
+    return _selector_in(ctx, pe, fn, rid, dparam)
+
+
+def _has_date_filter(fn, dparam):
+    for n in walk_own(fn):
+        if isinstance(n, (ast.ListComp, ast.GeneratorExp, ast.SetComp)) and len(n.generators) == 1 and isinstance(n.generators[0].target, ast.Name):
+            gen = n.generators[0]
+            for c in gen.ifs:
+                for cmp_ in ast.walk(c):
+                    if isinstance(cmp_, ast.Compare) and {x.id for x in ast.walk(cmp_) if isinstance(x, ast.Name)} >= {gen.target.id, dparam}:
+                        return True
+    return False
+
+
+def _has_bisect(fn, dparam):
+    return any(isinstance(n, ast.Call) and ast.unparse(n.func).split(".")[-1] in ("bisect_right", "bisect", "bisect_left", "searchsorted")
+               and any(isinstance(a, ast.Name) and a.id == dparam for a in [*n.args, *[k.value for k in n.keywords]]) for n in walk_own(fn))
+
+
+def _selector_in(ctx, pe, fn, rid, dparam):
+    la = local_assigns(fn)
+    found = None
     for n in walk_own(fn):
         if isinstance(n, (ast.ListComp, ast.GeneratorExp, ast.SetComp)) and len(n.generators) == 1:
             gen = n.generators[0]
@@ -479,6 +512,8 @@ def _selector(ctx, pe, fn, rid):
     for n_ in walk_own(fn):
         if isinstance(n_, ast.Call) and ast.unparse(n_.func) in ("numpy.max", "np.max", "max", "numpy.min", "np.min", "min") and n_.args and isinstance(n_.args[0], ast.Name) and n_.args[0].id == listname:
             picks.append(n_)
+        if isinstance(n_, ast.Call) and ast.unparse(n_.func) in ("numpy.max", "np.max", "max", "numpy.min", "np.min", "min") and n_.args and (n_.args[0] is comp or (isinstance(n_.args[0], ast.Call) and ast.unparse(n_.args[0].func) in ("sorted", "list", "tuple", "set") and n_.args[0].args and n_.args[0].args[0] is comp)):
+            picks.append(n_)  # the filtered keys handed to max(...) directly
         if isinstance(n_, ast.Subscript) and isinstance(n_.value, ast.Name) and n_.value.id == listname and isinstance(n_.slice, (ast.Constant, ast.UnaryOp)):
             picks.append(n_)
     if not picks:
@@ -596,26 +631,35 @@ def _bisect_selector(ctx, pe, fn, rid, dparam):
         ctx.violation(rid, f"{fn.name}|filter", pe.loc(call), f"`{ast.unparse(call)}` - 1 skips an entry dated exactly on the date (latest entry on or before the date expected): use the right-hand insertion point")
     lst = call.args[0] if call.args else None
     srt = isinstance(lst, ast.Name) and isinstance(la.get(lst.id), ast.Call) and ast.unparse(la[lst.id].func) == "sorted"
-    # the name holding `call - 1`
+    # the name holding `call - 1` (position) or `call` itself (count of entries on or before the date)
     pos = None
+    bad_value = -1
     for name, val in la.items():
         if isinstance(val, ast.BinOp) and isinstance(val.op, ast.Sub) and val.left is call and isinstance(val.right, ast.Constant) and val.right.value == 1:
             pos = name
-    if pos is None or not srt:
+    cnt = next((name for name, val in la.items() if val is call), None)
+    params_ = [a.arg for a in fn.args.args]
+    srt = srt or (isinstance(lst, ast.Name) and lst.id in params_ and "sorted" in lst.id)  # a parameter documented as sorted (checked at the call site below)
+    if pos is None and cnt is None or not srt:
         raise AnalysisError(f"{rid}: binary-search selection in {fn.name} is not `pos = bisect(sorted(...), {dparam}) - 1`; needs a re-read")
-    uses = [n for n in walk_own(fn) if isinstance(n, ast.Subscript) and isinstance(n.slice, ast.Name) and n.slice.id == pos]
+    if pos is not None:
+        uses = [n for n in walk_own(fn) if isinstance(n, ast.Subscript) and isinstance(n.slice, ast.Name) and n.slice.id == pos]
+    else:
+        pos, bad_value = cnt, 0
+        uses = [n for n in walk_own(fn) if isinstance(n, ast.Subscript) and isinstance(n.slice, ast.BinOp) and isinstance(n.slice.op, ast.Sub)
+                and isinstance(n.slice.left, ast.Name) and n.slice.left.id == cnt and isinstance(n.slice.right, ast.Constant) and n.slice.right.value == 1]
     if not uses:
         raise AnalysisError(f"{rid}: {fn.name} never indexes with `{pos}`")
     dom = Dominance(fn)
     for u in uses:
         feasible = True
         for t, pol in dom.of(u):
-            v = eval_sized(t, {pos: -1})
+            v = eval_sized(t, {pos: bad_value})
             if v is not None and v != pol:
                 feasible = False
         ctx.ob(rid, ok=not feasible, distinct=ast.unparse(u))
         if feasible:
-            ctx.violation(rid, f"{fn.name}|pick|{ast.unparse(u)}", pe.loc(u), f"`{ast.unparse(u)}` is reached with {pos} == -1 when every entry is dated after the date: index -1 silently selects the LATEST entry instead of none (a spec / value that is not in force yet is applied)")
+            ctx.violation(rid, f"{fn.name}|pick|{ast.unparse(u)}", pe.loc(u), f"`{ast.unparse(u)}` is reached with {pos} == {bad_value} when every entry is dated after the date: index -1 silently selects the LATEST entry instead of none (a spec / value that is not in force yet is applied)")
     return True
 
 
